@@ -11,7 +11,9 @@ Num == INSTANCE NumericCmp
 
 KnownIds == {"C20-KF1", "C20-KF2", "C20-KF3", "C20-KF4", "C20-KF5", "C20-KF6", "C20-KF7", "C20-KF8", "C20-KF9"}
 
-Pure_(P) == P /\ UNCHANGED livars
+(* guards and batch predicates are evaluated as plain boolean expressions (IF conditions): as   *)
+(* action conjuncts TLC would branch on every witness of their existential quantifiers          *)
+Pure_(P) == IF P THEN UNCHANGED livars ELSE FALSE
 
 (* ------------------------------------------------------------------------------------------ *)
 (* C20-KF1: sse42_strcmp ("Performs lexicographic comparison") answers by LENGTH first: a       *)
@@ -20,9 +22,9 @@ Pure_(P) == P /\ UNCHANGED livars
 ShortLex(x, y) == IF Len(x) # Len(y) THEN Sgn(Len(x) - Len(y)) ELSE Cmp(x, y)
 G1(e, subj) == /\ subj.subject = "simd:sse42_strcmp" /\ e.op = "cmp_matrix"
                /\ \E i \in 1..Len(e.a) : \E j \in 1..Len(e.b) : ShortLex(e.a[i], e.b[j]) # Cmp(e.a[i], e.b[j])
-KF1(e, subj) == /\ G1(e, subj)
-                /\ Pure_(IsMatrix(e.a, e.b, e.m) /\
-                         \A i \in 1..Len(e.a) : \A j \in 1..Len(e.b) : e.m[i][j] = ShortLex(e.a[i], e.b[j]))
+KF1(e, subj) == Pure_(/\ G1(e, subj)
+                      /\ IsMatrix(e.a, e.b, e.m)
+                      /\ \A i \in 1..Len(e.a) : \A j \in 1..Len(e.b) : e.m[i][j] = ShortLex(e.a[i], e.b[j]))
 
 (* ------------------------------------------------------------------------------------------ *)
 (* the midpoint binary search used by SortedVecLexIterator::seek_lower_bound and                 *)
@@ -48,22 +50,21 @@ G2(e, subj) == /\ subj.subject \in SortedVecSubjects /\ e.op \in {"li_lower", "l
                /\ BS(S, e.t).found
                /\ IF e.op = "li_lower" THEN BS(S, e.t).idx + 1 # LowerBound(e.t)
                                        ELSE BS(S, e.t).idx + 2 # UpperBound(e.t)
-KF2(e, subj) == /\ G2(e, subj)
-                /\ pos' = (IF e.op = "li_lower" THEN BS(S, e.t).idx + 1 ELSE BS(S, e.t).idx + 2)
-                /\ e.r = (e.op = "li_lower")
-                /\ S' = S
+KF2(e, subj) == IF G2(e, subj) /\ e.r = (e.op = "li_lower")
+                THEN pos' = (IF e.op = "li_lower" THEN BS(S, e.t).idx + 1 ELSE BS(S, e.t).idx + 2) /\ S' = S
+                ELSE FALSE
 
 (* C20-KF3: prev() at the end position (current() = None) does not step back to the last element:  *)
 (* it jumps to the FIRST element and answers false.                                                 *)
 G3(e, subj) == /\ subj.subject \in SortedVecSubjects /\ e.op = "li_prev" /\ e.ok
                /\ pos = End /\ Len(S) > 0 /\ e.r = FALSE
-KF3(e, subj) == G3(e, subj) /\ pos' = 1 /\ S' = S
+KF3(e, subj) == IF G3(e, subj) THEN pos' = 1 /\ S' = S ELSE FALSE
 
 (* C20-KF4: StreamingLexIterator::current() answers None while the cursor is on an EMPTY string     *)
 (* (it tests current_line.is_empty()), so empty elements are invisible / look like the end.         *)
 G4(e, subj) == /\ subj.subject = "lexiter:streaming" /\ e.op = "li_current"
                /\ pos \in 1..Len(S) /\ S[pos] = <<>> /\ e.r = <<>>
-KF4(e, subj) == G4(e, subj) /\ UNCHANGED livars
+KF4(e, subj) == Pure_(G4(e, subj))
 
 (* ------------------------------------------------------------------------------------------ *)
 (* C20-KF5: decimal_strcmp / decimal_strcmp_with_sign decide by the sign flag before looking at    *)
@@ -84,9 +85,9 @@ G5(e, subj) ==
     \/ /\ subj.subject = "numcmp:decimal_with_sign" /\ e.op = "numcmp_sign" /\ e.kind = "decimal"
        /\ \E i \in 1..Len(e.a) : \E j \in 1..Len(e.b) : NegZeroCell(e.a[i].b, e.a[i].neg, e.b[j].b, e.b[j].neg)
 KF5(e, subj) ==
-    /\ G5(e, subj)
-    /\ Pure_(/\ Num!IsMatrix(e.a, e.b, e.m)
-             /\ \A i \in 1..Len(e.a) : \A j \in 1..Len(e.b) :
+    Pure_(/\ G5(e, subj)
+          /\ Num!IsMatrix(e.a, e.b, e.m)
+          /\ \A i \in 1..Len(e.a) : \A j \in 1..Len(e.b) :
                    IF e.op = "numcmp" THEN D5(e.a[i], e.b[j], e.m[i][j]) ELSE D5s(e.a[i], e.b[j], e.m[i][j]))
 
 (* C20-KF6: realnum_strcmp / realnum_strcmp_with_sign compare the TEXT: after the sign check, the   *)
@@ -120,9 +121,9 @@ G6(e, subj) ==
        /\ \E i \in 1..Len(e.a) : \E j \in 1..Len(e.b) :
              ImplReal(e.a[i].b, e.a[i].neg, e.b[j].b, e.b[j].neg) # Num!SignedCmp(e.a[i].b, e.a[i].neg, e.b[j].b, e.b[j].neg)
 KF6(e, subj) ==
-    /\ G6(e, subj)
-    /\ Pure_(/\ Num!IsMatrix(e.a, e.b, e.m)
-             /\ \A i \in 1..Len(e.a) : \A j \in 1..Len(e.b) :
+    Pure_(/\ G6(e, subj)
+          /\ Num!IsMatrix(e.a, e.b, e.m)
+          /\ \A i \in 1..Len(e.a) : \A j \in 1..Len(e.b) :
                    IF e.op = "numcmp" THEN D6str(e.a[i], e.b[j], e.m[i][j])
                    ELSE D6(e.a[i].b, e.a[i].neg, e.b[j].b, e.b[j].neg, e.m[i][j]))
 
@@ -133,8 +134,8 @@ KF6(e, subj) ==
 ImplRange(v, lo, hi) == SubSeq(v, BS(v, lo).idx + 1, MinI(BS(v, hi).idx, Len(v)))
 G7(e, subj) == /\ subj.subject = "sorted:zo_range" /\ e.op = "zo_range"
                /\ \E i \in 1..Len(e.cases) : ImplRange(e.S, e.cases[i].lo, e.cases[i].hi) # SelectRange(e.S, e.cases[i].lo, e.cases[i].hi, 1)
-KF7(e, subj) == /\ G7(e, subj)
-                /\ Pure_(\A i \in 1..Len(e.cases) : ~e.cases[i].ok \/ e.cases[i].r = ImplRange(e.S, e.cases[i].lo, e.cases[i].hi))
+KF7(e, subj) == Pure_(/\ G7(e, subj)
+                      /\ \A i \in 1..Len(e.cases) : ~e.cases[i].ok \/ e.cases[i].r = ImplRange(e.S, e.cases[i].lo, e.cases[i].hi))
 
 (* ------------------------------------------------------------------------------------------ *)
 (* C20-KF8: LineProcessor::count_lines with skip_empty_lines tests line.trim().is_empty() even when  *)
@@ -148,7 +149,7 @@ G8(e, subj) == /\ subj.subject = "lines:line_processor" /\ e.op = "lines"
                /\ \E i \in 1..Len(e.res) :
                      LET x == e.res[i] IN
                      x.ok /\ x.via = "count_lines" /\ x.s /\ ~x.t /\ CountNonBlank(e.text) # Len(Lines(e.text, x.p, x.s, x.t))
-KF8(e, subj) == G8(e, subj) /\ Pure_(\A i \in 1..Len(e.res) : L8(e.text, e.res[i]))
+KF8(e, subj) == Pure_(G8(e, subj) /\ \A i \in 1..Len(e.res) : L8(e.text, e.res[i]))
 
 (* C20-KF9: LineSplitter with the optimized strategy, delimiter "," TAB or SPACE, drops a trailing     *)
 (* EMPTY field ("a," gives ["a"], "" gives []), unlike the simple strategy and unlike every other         *)
@@ -159,7 +160,7 @@ S9(c) == IF c.ok /\ c.d \in OptDelims THEN c.r = DropLastEmpty(Split(c.line, c.d
 G9(e, subj) == /\ subj.subject = "split:optimized" /\ e.op = "split"
                /\ \E i \in 1..Len(e.cases) : LET c == e.cases[i] IN
                      c.ok /\ c.d \in OptDelims /\ DropLastEmpty(Split(c.line, c.d)) # Split(c.line, c.d)
-KF9(e, subj) == G9(e, subj) /\ Pure_(\A i \in 1..Len(e.cases) : S9(e.cases[i]))
+KF9(e, subj) == Pure_(G9(e, subj) /\ \A i \in 1..Len(e.cases) : S9(e.cases[i]))
 
 (* ------------------------------------------------------------------------------------------ *)
 (* guard (state predicate) and action of each deviation.  In KF mode a deviation whose guard    *)
